@@ -290,6 +290,10 @@ class InfeasiblePath(Exception):
     pass
 
 
+class PoisonValue(TypeError):
+    """a poison value (IEEE nan / inf of the real code) reached a place that needs a number"""
+
+
 _DIV_MEMO = {}
 _DIVUF = z3.Function("div!uf", z3.RealSort(), z3.RealSort(), z3.RealSort())
 
@@ -524,6 +528,8 @@ def toz(v):
         return z3.RealVal(int(v))
     if hasattr(v, "dtype"):       # numpy scalar
         return toz(v.item())
+    if v is POISON:
+        raise PoisonValue("nan/inf where a number is required")
     raise TypeError("cannot convert %r to a real term" % (type(v),))
 
 
